@@ -178,7 +178,27 @@ const SCHEMAS = [
   S('chain', '(g())?.(@X@).trim()'),
   S('chain', 'o.m?.(@X@).trim()'),
   S('chain', 'o?.[k]?.(@X@)?.trim()'),
-  S('chain', 'new X(@X@)?.q.trim()')
+  S('chain', 'new X(@X@)?.q.trim()'),
+  // a chain closed by parentheses inside a longer expression: short-circuiting stops at the parenthesis
+  S('chain', '(s?.trim()).length'),
+  S('chain', '(o?.q.trim()).length?.p'),
+  S('chain', '(o?.q.concat(@X@)).r?.concat(@Y@)'),
+  S('chain', '(s?.trim())?.length'),
+  S('chain', '(o?.q).trim()'),
+  S('chain', '((o?.q.trim())).concat(@X@)?.p'),
+  S('chain', '(o?.q.trim().r)?.concat(@X@)'),
+  // prototype calls with the receiver only
+  S('proto', 'X.prototype.trim.call(@X@)'),
+  S('proto', 'String.prototype.trim.call(@X@)'),
+  S('proto', 'X.prototype.concat.call(@X@)'),
+  S('proto', 'X.prototype.trim.apply(@X@)'),
+  S('proto', 'X.prototype.trim.apply(@X@, [])'),
+  S('proto', 'X.prototype.trim.call(@X@, @Y@)'),
+  // more arguments than the form needs: they are still evaluated
+  S('proto', 'X.prototype.concat.apply(a, [@X@], @Y@)'),
+  S('proto', 'X.prototype.concat.apply(a, arr, f(), @X@)'),
+  S('proto', 'X.prototype.concat.apply(@X@, @Y@, @Z@)'),
+  S('proto', 'X.prototype.trim.apply(a, [], @X@)')
 ]
 
 // ---- G3 expression contexts ------------------------------------------------------------------------
